@@ -19,6 +19,12 @@ def PF.OK (p : PF) : Prop :=
   p.f.tag = none ∧ Ty.ser p.f.ty p.f.len p.f.enc none p.v = .ok p.bytes ∧
   ∀ x, Ty.de p.f.ty p.f.len p.f.enc none (p.bytes ++ x) = .ok (p.v, x)
 
+/-- the part of `PF.OK` that does not depend on what follows: positional, and these are the bytes written. -/
+def PF.OK0 (p : PF) : Prop :=
+  p.f.tag = none ∧ Ty.ser p.f.ty p.f.len p.f.enc none p.v = .ok p.bytes
+
+theorem PF.OK.ok0 {p : PF} (h : p.OK) : p.OK0 := ⟨h.1, h.2.1⟩
+
 /-- a tagged field instance: `present = false` is an absent `Option` (nothing is written). -/
 structure TF where
   f : Field
@@ -42,7 +48,7 @@ theorem field_eta (f : Field) : f = .mk f.name f.tag f.len f.enc f.ty := by case
 /-! ### encode -/
 
 theorem encFields_pos : ∀ (ps : List PF) (fs : List Field) (vs : List Val) (rest : Bytes),
-    (∀ p ∈ ps, p.OK) → encFields fs vs = .ok rest →
+    (∀ p ∈ ps, p.OK0) → encFields fs vs = .ok rest →
     encFields (ps.map (·.f) ++ fs) (ps.map (·.v) ++ vs) = .ok ((ps.flatMap (·.bytes)) ++ rest) := by
   intro ps
   induction ps with
@@ -55,7 +61,7 @@ theorem encFields_pos : ∀ (ps : List PF) (fs : List Field) (vs : List Val) (re
     simp only [encFields]
     rw [hp.1] at *
     have := ih fs vs rest (fun q hq => hok q (by simp [hq])) h
-    have hs := hp.2.1
+    have hs := hp.2
     simp only [Field.ty, Field.len, Field.enc] at hs ⊢
     rw [hs, this]
 
@@ -108,7 +114,7 @@ theorem decPos_pos : ∀ (ps : List PF) (qs : List TF) (x : Bytes), (∀ p ∈ p
 
 /-! ### decode: the arms -/
 
-theorem armFind_skip_pos : ∀ (ps : List PF) (fs : List Field) (t i : Nat) (b : Bytes), (∀ p ∈ ps, p.OK) →
+theorem armFind_skip_pos : ∀ (ps : List PF) (fs : List Field) (t i : Nat) (b : Bytes), (∀ p ∈ ps, p.OK0) →
     armFind (ps.map (·.f) ++ fs) t i b = armFind fs t (i + ps.length) b := by
   intro ps
   induction ps with
@@ -267,7 +273,7 @@ theorem lookup_groups : ∀ (qs : List TF) (base j : Nat),
 /-! ### assembling the struct value -/
 
 theorem assemble_pos : ∀ (ps : List PF) (fs : List Field) (more : List Val) (acc : List (Nat × Val)) (i : Nat),
-    (∀ p ∈ ps, p.OK) →
+    (∀ p ∈ ps, p.OK0) →
     assemble (ps.map (·.f) ++ fs) (ps.map (·.v) ++ more) acc i = ps.map (·.v) ++ assemble fs more acc (i + ps.length) := by
   intro ps
   induction ps with
@@ -324,7 +330,7 @@ theorem getElem?_split {α : Type} (l : List α) (j : Nat) (a : α) (h : l[j]? =
       obtain ⟨pre, post, he, hl⟩ := ih j h
       exact ⟨x :: pre, post, by rw [he]; rfl, by simp [hl]⟩
 
-theorem groupOK_of_fields (ps : List PF) (qs : List TF) (hps : ∀ p ∈ ps, p.OK) (hqs : ∀ q ∈ qs, q.OK)
+theorem groupOK_of_fields (ps : List PF) (qs : List TF) (hps : ∀ p ∈ ps, p.OK0) (hqs : ∀ q ∈ qs, q.OK)
     (hnd : (qs.map (·.t)).Nodup) (g : Group) (hg : g ∈ groupsFrom ps.length qs) :
     GroupOK (fun t x => armFind (ps.map (·.f) ++ qs.map (·.f)) t 0 x) g := by
   obtain ⟨j, q, hj, hp, rfl⟩ := groupsFrom_mem qs ps.length g hg
@@ -357,33 +363,94 @@ theorem mem_requiredTags (fs : List Field) (t : Nat) : t ∈ requiredTags fs ↔
   · rintro ⟨f, hf, hno, ht⟩
     exact ⟨f, hf, by simp [hno, ht]⟩
 
+/-- the positional fields are read back in front of the particular continuation `T` (for a field that decodes
+whatever follows it this holds for every `T`; an absent positional optional is read back as absent only in front
+of bytes its own decoder fails on). -/
+def PosOn : List PF → Bytes → Prop
+  | [], _ => True
+  | p :: ps, T =>
+    p.OK0 ∧ Ty.de p.f.ty p.f.len p.f.enc none (p.bytes ++ (ps.flatMap (·.bytes) ++ T)) = .ok (p.v, ps.flatMap (·.bytes) ++ T) ∧
+    PosOn ps T
+
+theorem posOn_of_ok : ∀ (ps : List PF) (T : Bytes), (∀ p ∈ ps, p.OK) → PosOn ps T := by
+  intro ps
+  induction ps with
+  | nil => intro _ _; trivial
+  | cons p ps ih =>
+    intro T h
+    exact ⟨(h p (by simp)).ok0, (h p (by simp)).2.2 _, ih T (fun q hq => h q (by simp [hq]))⟩
+
+theorem posOn_ok0 : ∀ (ps : List PF) (T : Bytes), PosOn ps T → ∀ p ∈ ps, p.OK0 := by
+  intro ps
+  induction ps with
+  | nil => intro _ _ p hp; simp at hp
+  | cons q ps ih =>
+    intro T h p hp
+    simp only [List.mem_cons] at hp
+    rcases hp with rfl | hp
+    · exact h.1
+    · exact ih T h.2.2 p hp
+
+theorem decPos_on : ∀ (ps : List PF) (fs : List Field) (T : Bytes), PosOn ps T →
+    decPos (ps.map (·.f) ++ fs) (ps.flatMap (·.bytes) ++ T) =
+      match decPos fs T with
+      | .error e => .error e
+      | .ok (vs, r) => .ok (ps.map (·.v) ++ vs, r) := by
+  intro ps
+  induction ps with
+  | nil =>
+    intro fs T _
+    simp only [List.map_nil, List.nil_append, List.flatMap_nil]
+    cases decPos fs T with
+    | error e => rfl
+    | ok p => rfl
+  | cons p ps ih =>
+    intro fs T h
+    obtain ⟨h0, hd, hrest⟩ := h
+    simp only [List.map_cons, List.cons_append, List.flatMap_cons, List.append_assoc]
+    rw [field_eta p.f, h0.1]
+    simp only [decPos]
+    simp only [Field.ty, Field.len, Field.enc] at hd ⊢
+    rw [hd]
+    simp only
+    rw [ih fs T hrest]
+    cases decPos fs T with
+    | error e => rfl
+    | ok q => rfl
+
 /-- **Struct round trip, compositional.** Positional fields (each round-tripping whatever follows it)
 followed by tagged fields with pairwise distinct numbers (present ones decoding exactly whatever follows
 them, absent optional ones writing nothing): the generated `encode` writes the concatenation of the
 field encodings, and the generated `decode` reads it back as exactly the field values, nothing left. -/
-theorem struct_payload_roundtrip (ps : List PF) (qs : List TF) (hps : ∀ p ∈ ps, p.OK) (hqs : ∀ q ∈ qs, q.OK)
+theorem struct_payload_roundtrip_at (ps : List PF) (qs : List TF) (hps : PosOn ps (qs.flatMap (·.bytes))) (hqs : ∀ q ∈ qs, q.OK)
     (hnd : (qs.map (·.t)).Nodup) :
     encFields (ps.map (·.f) ++ qs.map (·.f)) (ps.map (·.v) ++ qs.map (·.v)) =
         .ok (ps.flatMap (·.bytes) ++ qs.flatMap (·.bytes)) ∧
     decStruct (ps.map (·.f) ++ qs.map (·.f)) (ps.flatMap (·.bytes) ++ qs.flatMap (·.bytes)) =
         .ok (.struct (ps.map (·.v) ++ qs.map (·.v)), []) := by
+  have hps0 := posOn_ok0 ps _ hps
   constructor
-  · exact encFields_pos ps _ _ _ hps (encFields_tagged qs hqs)
+  · exact encFields_pos ps _ _ _ hps0 (encFields_tagged qs hqs)
   · let fs := ps.map (·.f) ++ qs.map (·.f)
     let gs := groupsFrom ps.length qs
     have hflat : qs.flatMap (·.bytes) = flat gs := (flat_groupsFrom qs ps.length hqs).symm
     have hgnd : (gs.map (·.t)).Nodup := List.Nodup.sublist (groupsFrom_tags_sublist qs ps.length) hnd
-    have hgok : ∀ g ∈ gs, GroupOK (fun t x => armFind fs t 0 x) g := fun g hg => groupOK_of_fields ps qs hps hqs hnd g hg
+    have hgok : ∀ g ∈ gs, GroupOK (fun t x => armFind fs t 0 x) g := fun g hg => groupOK_of_fields ps qs hps0 hqs hnd g hg
     unfold decStruct
-    rw [hflat, C13.decode_groups (fun x => decPos fs x) (fun t x => armFind fs t 0 x) fs (ps.flatMap (·.bytes)) (ps.map (·.v))
-      (fun x => decPos_pos ps qs x hps hqs) gs hgok hgnd]
+    have hposAt : decPos fs (ps.flatMap (·.bytes) ++ flat gs) = .ok (ps.map (·.v), flat gs) := by
+      rw [← hflat]
+      have := decPos_on ps (qs.map (·.f)) (qs.flatMap (·.bytes)) hps
+      rw [decPos_tagged_only qs _ hqs] at this
+      simpa using this
+    rw [hflat, C13.decode_groups_at (fun x => decPos fs x) (fun t x => armFind fs t 0 x) fs (ps.flatMap (·.bytes)) (ps.map (·.v))
+      gs hposAt hgok hgnd]
     -- nothing is missing
     have hall : ∀ t ∈ requiredTags fs, t ∈ tagsOf gs [] := by
       intro t ht
       obtain ⟨f, hf, hno, htag⟩ := (mem_requiredTags fs t).mp ht
       simp only [fs, List.mem_append, List.mem_map] at hf
       rcases hf with ⟨p, hp, rfl⟩ | ⟨q, hq, rfl⟩
-      · rw [(hps p hp).1] at htag; cases htag
+      · rw [(hps0 p hp).1] at htag; cases htag
       · have hqo := hqs q hq
         have hpres : q.present = true := by
           cases hpp : q.present with
@@ -428,10 +495,19 @@ theorem struct_payload_roundtrip (ps : List PF) (qs : List TF) (hps : ∀ p ∈ 
       rw [C13.lookupIdx_perm _ hperm hkeys]
       exact lookup_groups qs ps.length j
     have hasm : assemble fs (ps.map (·.v)) (results gs []) 0 = ps.map (·.v) ++ qs.map (·.v) := by
-      have h1 := assemble_pos ps (qs.map (·.f)) [] (results gs []) 0 hps
+      have h1 := assemble_pos ps (qs.map (·.f)) [] (results gs []) 0 hps0
       simp only [List.append_nil, Nat.zero_add] at h1
       rw [h1, assemble_tagged qs (results gs []) ps.length hqs hlook]
     rw [hasm]
+
+/-- the same when every positional field decodes whatever follows it. -/
+theorem struct_payload_roundtrip (ps : List PF) (qs : List TF) (hps : ∀ p ∈ ps, p.OK) (hqs : ∀ q ∈ qs, q.OK)
+    (hnd : (qs.map (·.t)).Nodup) :
+    encFields (ps.map (·.f) ++ qs.map (·.f)) (ps.map (·.v) ++ qs.map (·.v)) =
+        .ok (ps.flatMap (·.bytes) ++ qs.flatMap (·.bytes)) ∧
+    decStruct (ps.map (·.f) ++ qs.map (·.f)) (ps.flatMap (·.bytes) ++ qs.flatMap (·.bytes)) =
+        .ok (.struct (ps.map (·.v) ++ qs.map (·.v)), []) :=
+  struct_payload_roundtrip_at ps qs (posOn_of_ok ps _ hps) hqs hnd
 
 /-- structs without tagged fields (usable without length prefix) hand back whatever follows them. -/
 theorem struct_positional_suffix (ps : List PF) (hps : ∀ p ∈ ps, p.OK) (x : Bytes) :
@@ -442,7 +518,7 @@ theorem struct_positional_suffix (ps : List PF) (hps : ∀ p ∈ ps, p.OK) (x : 
   simp only [hpos]
   have harm : ∀ t b, armFind (ps.map (·.f)) t 0 b = none := by
     intro t b
-    have := armFind_skip_pos ps [] t 0 b hps
+    have := armFind_skip_pos ps [] t 0 b (fun p hp => (hps p hp).ok0)
     simp only [List.append_nil] at this
     rw [this]; rfl
   have hloop : tagLoop (fun t b => armFind (ps.map (·.f)) t 0 b) (x.length + 2) (x.length + 1) x [] [] = .ok ([], [], x) := by
@@ -461,7 +537,7 @@ theorem struct_positional_suffix (ps : List PF) (hps : ∀ p ∈ ps, p.OK) (x : 
     simp only [List.mem_map] at hf
     obtain ⟨p, hp, rfl⟩ := hf
     rw [(hps p hp).1] at htag; cases htag
-  have hasm := assemble_pos ps [] [] [] 0 hps
+  have hasm := assemble_pos ps [] [] [] 0 (fun p hp => (hps p hp).ok0)
   simp only [List.append_nil, assemble] at hasm
   simp [hreq, sortDedup, hasm]
 
